@@ -24,6 +24,11 @@ type c02Case struct {
 	ReadLim int              `json:"read_limit"` // -1 = read everything, k = stop after k octets
 	Reads   []int            `json:"reads,omitempty"`
 	Result  harness.Decision `json:"result"`
+	// StallAt > 0: the server has a 30 ms ReadTimeout; the client sends the
+	// first StallAt octets of the stream, stays silent until the server has
+	// reacted to the timeout (state-based wait), then sends the rest. Whatever
+	// the server does then, the rest of the message must not be executed.
+	StallAt int `json:"stall_at,omitempty"`
 }
 
 var c02Baits = []string{
@@ -116,8 +121,12 @@ func c02Gen(t *rapid.T) c02Case {
 	default:
 		c.Result = harness.Decision{Kind: "plain", Msg: "scripted failure"}
 	}
-	stream, _ := c02Stream(c)
+	stream, moff := c02Stream(c)
 	c.Cuts = genCuts(t, len(stream), interestingPositions(stream, ".\r\n"), "cuts")
+	if moff > 2 && rapid.IntRange(0, 999).Draw(t, "stall")%25 == 7 {
+		c.StallAt = rapid.IntRange(1, moff-1).Draw(t, "stall_at")
+		c.Limit = 0
+	}
 	return c
 }
 
@@ -129,6 +138,10 @@ func c02Run(c c02Case) Verdict {
 	}
 	lmtp := c.Mode != 0
 	cfg := harness.Config{LMTP: lmtp, MaxMessageBytes: c.Limit}
+	stall := c.StallAt > 0 && c.StallAt < markerOff
+	if stall {
+		cfg.ReadTimeoutMs = 30
+	}
 	script := harness.Script{LMTPSession: c.Mode == 2,
 		Data: []harness.DataPlan{{Read: harness.ReadPlan{Sizes: c.Reads, Limit: c.ReadLim}, Result: c.Result, Honest: true}}}
 	r := harness.NewRig(cfg, script)
@@ -138,7 +151,21 @@ func c02Run(c c02Case) Verdict {
 		w.Finish()
 		return Verdict{Inconclusive: e}
 	}
-	w.SendCuts(stream, c.Cuts)
+	if stall {
+		w.Send(stream[:c.StallAt])
+		// wait until the idle timeout has fired and the server has dealt with
+		// it: it wrote something (the failed transaction's reply, a 421) or
+		// closed the connection
+		before := w.S.Consumed()
+		_ = before
+		mark := len(w.Recv())
+		_ = mark
+		r.Hub.WaitUntil(func() bool { return w.S.ClosedLocked() || w.S.WrittenLocked() > int64(len(w.Out)) }, harness.Watchdog)
+		w.WaitQuiet()
+		w.Send(stream[c.StallAt:])
+	} else {
+		w.SendCuts(stream, c.Cuts)
+	}
 	rest, fin := w.Finish()
 	rest = append(early, rest...)
 	if !fin {
@@ -182,11 +209,28 @@ func c02Run(c c02Case) Verdict {
 	if p := r.Log.Panicked(); p != "" {
 		return failf("panic", "server logged a panic: %s", p)
 	}
+	if stall {
+		v.Classes = append(v.Classes, "stalled_past_read_timeout")
+		v.NonTrivial = hasBait
+	}
 	// (i) no bait ever reaches a callback
 	for _, e := range evs {
 		if strings.Contains(e.From, "bait") || strings.Contains(e.To, "bait") || strings.Contains(e.Hostname, "bait") {
 			return failf("bait-executed", "message content was executed as a command: %s (stream %s)", e, q(stream))
 		}
+	}
+	if stall {
+		// after a timeout in the middle of the message only (i) is demanded:
+		// the markers behind the end marker may or may not be reached
+		for _, e := range evs {
+			if e.CB == "Mail" && e.Begin && e.From != "s@x" && e.From != "marker0@x" {
+				return failf("bait-executed", "after a read timeout inside the message, a later part of it was executed: %s", e)
+			}
+		}
+		if _, err := harness.ParseRepliesLenient(rest); err != nil {
+			return failf("reply-syntax", "replies do not parse: %v", err)
+		}
+		return v
 	}
 	des := dataEvents(evs)
 	if len(des) != 1 {
